@@ -178,6 +178,9 @@ type simResult struct {
 	decided  bool
 	desc     map[string]any
 	byzVotes int
+	roundAtStab uint64 // highest round of an honest participant when the network became timely
+	deadlock bool     // ended with undecided honest participants, nothing in flight and no alarm pending
+	budget   bool     // step budget exhausted (inconclusive)
 }
 
 // one adversarial multi-node run of a single instance
@@ -263,7 +266,8 @@ func simScenario(r *rng, viol func(clause, sig, detail string), opts ...gpbft.Op
 	}
 	// stabilise: timely delivery, silent adversary, until everyone decides
 	g.stabilised = true
-	decided := g.run(30000, nil)
+	roundAtStab := g.maxRound()
+	decided := g.run(60000, nil)
 	g.checkDecisions()
 	bv := 0
 	for _, v := range g.votes {
@@ -271,7 +275,13 @@ func simScenario(r *rng, viol func(clause, sig, detail string), opts ...gpbft.Op
 			bv++
 		}
 	}
-	return &simResult{g: g, decided: decided, byzVotes: bv,
+	dl := false
+	for _, l := range g.log {
+		if strings.HasPrefix(l, "deadlock") {
+			dl = true
+		}
+	}
+	return &simResult{g: g, decided: decided, byzVotes: bv, roundAtStab: roundAtStab, deadlock: dl && !decided, budget: !decided && !dl,
 		desc: map[string]any{"nodes": n, "powers": powers, "byzantine": byz, "max_delay": cfg.maxDelay.String(), "votes": len(g.votes), "byz_votes": bv, "max_round": g.maxRound(), "all_decided": decided}}
 }
 
